@@ -12,8 +12,10 @@ Mirrors, function by function (Go names kept, first letter lowered):
 A uuid is 16 arbitrary bytes (`uuid.UUID = [16]byte`; `uuid.FromBytes` only checks the
 length, so the two `uuid.FromBytes` checks of `VerifyMetadataAddressFormat` can never fail once
 the length matched).  The record-name hash `sha256(lower(trim(name)))` is a PARAMETER `sha` of
-every function that needs it; theorems quantify over it.  bech32 text is not modelled (library
-`cosmos/btcutil`; observed by the correspondence run only).
+every function that needs it; theorems quantify over it.  The bech32 text form (`String()`,
+`ParseMetadataAddressFromBech32`; library `cosmos/btcutil/bech32` behind cosmos-sdk
+`types/bech32`) is modelled at the end of this file: 8<->5 bit regrouping, BCH checksum, case
+normalisation.
 -/
 import PvModel.Util
 
@@ -277,5 +279,173 @@ def iterPrefix (ix : Index) (first : Bytes) : Option Bytes :=
 /-- `Get…CacheKey` / `NetAssetValueKey` -/
 def indexKey (ix : Index) (first second : Bytes) : Option Bytes :=
   (iterPrefix ix first).map (· ++ second)
+
+/-! ### bech32 text
+
+`github.com/cosmos/btcutil@v1.0.5/bech32/bech32.go` (`ConvertBits`, `bech32Polymod`,
+`writeBech32Checksum`, `Normalize`, `DecodeUnsafe`, `DecodeNoLimit`, `Decode`, `Encode`),
+cosmos-sdk `types/bech32/bech32.go` (`ConvertAndEncode`, `DecodeAndConvert`, limit 1023) and
+`MetadataAddress.String` / `ParseMetadataAddressFromBech32` (address.go:177-196, 391-409).
+
+A text is a `List Char`; the Go code works on the bytes of the string.  Both agree on ASCII
+texts, and a text with a character outside 33..126 is rejected by `Normalize` on either side
+(every byte of a multi-byte UTF-8 character is ≥ 128); length tests come before `Normalize`
+and only decide between two errors.  Errors are `none` (no error classes). -/
+
+/-- the bech32 data alphabet: `charset[i]` is the character of the 5-bit value `i` -/
+def bech32Charset : List Char := "qpzry9x8gf2tvdw0s3jn54khce6mua7l".toList
+
+/-- the `w` low bits of `n`, most significant first -/
+def natBits : Nat → Nat → List Bool
+  | 0, _ => []
+  | w + 1, n => decide (n / 2 ^ w % 2 = 1) :: natBits w n
+
+/-- the number a bit string (most significant first) stands for -/
+def bitsNat : List Bool → Nat
+  | [] => 0
+  | b :: bs => b.toNat * 2 ^ bs.length + bitsNat bs
+
+/-- the first `n` groups of `w` bits -/
+def chunkN (w : Nat) : Nat → List Bool → List (List Bool)
+  | 0, _ => []
+  | n + 1, bs => bs.take w :: chunkN w n (bs.drop w)
+
+/-- the regrouping loop of `ConvertBits` on the bit string: full groups of `toBits` bits; an
+unfinished last group is padded with zero bits (`pad`), or must have at most 4 bits, all zero -/
+def regroup (bits : List Bool) (toBits : Nat) (pad : Bool) : Option Bytes :=
+  let q := bits.length / toBits
+  let out := (chunkN toBits q bits).map fun g => UInt8.ofNat (bitsNat g)
+  let rest := bits.drop (toBits * q)
+  if rest.isEmpty then some out
+  else if pad then
+    some (out ++ [UInt8.ofNat (bitsNat (rest ++ List.replicate (toBits - rest.length) false))])
+  else if rest.length > 4 || bitsNat rest ≠ 0 then none
+  else some out
+
+/-- `ConvertBits(data, fromBits, toBits, pad)` for `1 ≤ fromBits, toBits ≤ 8`: only the low
+`fromBits` bits of every input byte are used (`b << (8 - fromBits)`). -/
+def convertBits (data : Bytes) (fromBits toBits : Nat) (pad : Bool) : Option Bytes :=
+  regroup (data.flatMap fun b => natBits fromBits b.toNat) toBits pad
+
+/-- xor of the generator constants `gen[i]` selected by the bits of `b` -/
+def polymodG (b : Nat) : Nat :=
+  (if b.testBit 0 then 0x3b6a57b2 else 0) ^^^ (if b.testBit 1 then 0x26508e6d else 0) ^^^
+  (if b.testBit 2 then 0x1ea119fa else 0) ^^^ (if b.testBit 3 then 0x3d4233dd else 0) ^^^
+  (if b.testBit 4 then 0x2a1462b3 else 0)
+
+/-- one round of `bech32Polymod`: `b := chk >> 25; chk = (chk&0x1ffffff)<<5 ^ v; chk ^= gen[i]…` -/
+def polymodStep (chk v : Nat) : Nat :=
+  (((chk &&& 0x1ffffff) <<< 5) ^^^ v) ^^^ polymodG (chk >>> 25)
+
+/-- the high bits, the separator 0 and the low bits of the hrp, as `bech32Polymod` feeds them -/
+def hrpExpand (hrp : List Char) : List Nat :=
+  hrp.map (fun (c : Char) => c.toNat >>> 5) ++ 0 :: hrp.map (fun (c : Char) => c.toNat &&& 31)
+
+/-- `bech32Polymod(hrp, values, checksum)`; a nil checksum is six zero rounds -/
+def bech32Polymod (hrp : List Char) (values checksum : List Nat) : Nat :=
+  (hrpExpand hrp ++ values ++ checksum).foldl polymodStep 1
+
+/-- `writeBech32Checksum`: the six 5-bit values of `polymod ^ 1`, most significant first -/
+def bech32Checksum (hrp : List Char) (values : List Nat) : List Nat :=
+  let p := bech32Polymod hrp values [0, 0, 0, 0, 0, 0] ^^^ 1
+  [(p >>> 25) &&& 31, (p >>> 20) &&& 31, (p >>> 15) &&& 31, (p >>> 10) &&& 31, (p >>> 5) &&& 31, p &&& 31]
+
+def charsetChar (v : Nat) : Char := bech32Charset.getD v 'q'
+
+/-- `strings.IndexByte(charset, c)` -/
+def charsetIndex? (c : Char) : Option Nat :=
+  let i := bech32Charset.findIdx (· = c)
+  if i < 32 then some i else none
+
+/-- `toBytes`: every character to its 5-bit value; a character outside the charset is an error -/
+def charsetDecode : List Char → Option (List Nat)
+  | [] => some []
+  | c :: cs =>
+    match charsetIndex? c, charsetDecode cs with
+    | some v, some vs => some (v :: vs)
+    | _, _ => none
+
+/-- `Encode(hrp, data)`: data bytes must be 5-bit values; the hrp is lower-cased (ASCII: the only
+hrps used are the six constants `Kind.hrp`). -/
+def bech32Encode (hrp : List Char) (data : Bytes) : Option (List Char) :=
+  if data.any (fun b => b.toNat ≥ 32) then none
+  else
+    let hrp := hrp.map lowerChar
+    let vals := data.map (·.toNat)
+    some (hrp ++ '1' :: (vals ++ bech32Checksum hrp vals).map charsetChar)
+
+def isLowerAscii (c : Char) : Bool := decide ('a' ≤ c ∧ c ≤ 'z')
+def isUpperAscii (c : Char) : Bool := decide ('A' ≤ c ∧ c ≤ 'Z')
+
+/-- `Normalize`: characters 33..126 only, not mixed case; upper case is lowered -/
+def bech32Normalize (cs : List Char) : Option (List Char) :=
+  if cs.any (fun c => c.toNat < 33 || c.toNat > 126) then none
+  else if cs.any isLowerAscii && cs.any isUpperAscii then none
+  else if cs.any isUpperAscii then some (cs.map lowerChar)
+  else some cs
+
+/-- split at the LAST occurrence of `c` (`strings.LastIndexByte`) -/
+def splitLast (c : Char) : List Char → Option (List Char × List Char)
+  | [] => none
+  | x :: xs =>
+    match splitLast c xs with
+    | some (a, b) => some (x :: a, b)
+    | none => if x = c then some ([], xs) else none
+
+/-- `Decode(bech, limit)` = length limit, `DecodeNoLimit`: `Normalize`, `DecodeUnsafe` (separator
+not first, at least 6 characters after it, charset), `VerifyChecksum`.  Returns the hrp and the
+5-bit data without the checksum. -/
+def bech32Decode (cs : List Char) (limit : Nat) : Option (List Char × Bytes) :=
+  if cs.length > limit then none
+  else if cs.length < 8 then none
+  else
+    match bech32Normalize cs with
+    | none => none
+    | some cs =>
+      match splitLast '1' cs with
+      | none => none
+      | some (hrp, rest) =>
+        if hrp.isEmpty || rest.length < 6 then none
+        else
+          match charsetDecode rest with
+          | none => none
+          | some dec =>
+            let values := dec.take (dec.length - 6)
+            let checksum := dec.drop (dec.length - 6)
+            if bech32Polymod hrp values checksum = 1 then some (hrp, values.map UInt8.ofNat)
+            else none
+
+/-- cosmos-sdk `bech32.ConvertAndEncode` -/
+def convertAndEncode (hrp : String) (data : Bytes) : Option String :=
+  match convertBits data 8 5 true with
+  | none => none
+  | some c => (bech32Encode hrp.toList c).map String.ofList
+
+/-- cosmos-sdk `bech32.DecodeAndConvert` -/
+def decodeAndConvert (bech : String) : Option (String × Bytes) :=
+  match bech32Decode bech.toList 1023 with
+  | none => none
+  | some (hrp, data) => (convertBits data 5 8 false).map fun bz => (String.ofList hrp, bz)
+
+/-- `MetadataAddress.String()` of an address that passes `Validate` (an empty address gives "",
+an invalid one its `%#v` rendering: `none` here). -/
+def toBech32 (ma : Bytes) : Option String :=
+  match verifyMetadataAddressFormat ma with
+  | (hrp, none) => convertAndEncode hrp ma
+  | _ => none
+
+/-- `ParseMetadataAddressFromBech32` (address.go:177-196): the bytes and the hrp.  The initial
+`TrimSpace(address) == ""` test is subsumed: such a text fails `DecodeAndConvert`. -/
+def parseMetadataAddressFromBech32 (address : String) : Option (Bytes × String) :=
+  match decodeAndConvert address with
+  | none => none
+  | some (hrp, bz) =>
+    match verifyMetadataAddressFormat bz with
+    | (expected, none) => if expected ≠ hrp then none else some (bz, hrp)
+    | _ => none
+
+/-- `MetadataAddressFromBech32` -/
+def metadataAddressFromBech32 (address : String) : Option Bytes :=
+  (parseMetadataAddressFromBech32 address).map (·.1)
 
 end PvModel.MdAddr
